@@ -235,6 +235,7 @@ def plist_slice(eng, base, sl):
     v = slice_view(eng, tmp, sl)
     p = PList()
     p.items, p.cols, p.kinds, p.n, p.tup = None, [v.arr], [base.kinds[0]], v.n, False
+    p.proto = base.proto  # the elements of a slice are the same objects (same protocol)
     if len(base.cols) > 1:
         raise Unsupported("slice of a list of tuples")
     return p
